@@ -244,7 +244,7 @@ static inline long it_distance(it_t a, it_t b) { return b - a; }
   static inline T *NAME##_front(NAME *v) { MODEL_PRE(v->n > 0, "vector::front requires !empty()"); return &v->data[0]; } \
   static inline void NAME##_pop_back(NAME *v) { MODEL_PRE(v->n > 0, "vector::pop_back requires !empty()"); v->n--; } \
   static inline T *NAME##_begin(NAME *v) { return v->data; } \
-  static inline T *NAME##_end(NAME *v) { return v->data + v->n; } \
+  static inline T *NAME##_end(NAME *v) { return v->n ? v->data + v->n : v->data; } \
   static inline T *NAME##_at(NAME *v, unsigned long i) { MODEL_PRE(i < v->n, "vector[i] requires i < size()"); return &v->data[i]; } \
   static inline void NAME##_push_back(NAME *v, T x) { \
     MODEL_LIMIT(v->n < VEC_CAP, "vector capacity of the model"); \
